@@ -45,8 +45,18 @@ def _frame_facts(ctx):
     ups = calls_named(rcv.node, 'unpack_from')
     hdr = [u for u in ups if isinstance(u.args[0], ast.Constant)]
     pay = [u for u in ups if isinstance(u.args[0], ast.JoinedStr)]
-    if len(hdr) != 1 or len(pay) != 1:
-        raise AnalysisError('FR: reader no longer has one header unpack_from and one payload unpack_from')
+    if len(hdr) != 1:
+        raise AnalysisError('FR: reader no longer has exactly one header unpack_from')
+    if not pay:
+        # payload taken by slicing the buffer: data[hs:X] inside the frame loop
+        pmx = parents(rcv.node)
+        lpx = [a for a in ancestors(hdr[0], pmx) if isinstance(a, ast.While)]
+        for n in (iter_nodes(lpx[0]) if lpx else []):
+            if isinstance(n, ast.Subscript) and isinstance(n.slice, ast.Slice) and isinstance(n.ctx, ast.Load) and n.slice.lower is not None \
+                    and norm(n.value) in ('data', 'self.bytes') and not isinstance(pmx.get(id(n)), ast.Delete):
+                pay.append(n)
+    if len(pay) != 1:
+        raise AnalysisError('FR: reader no longer has exactly one payload read (unpack_from with an f-string format, or a slice of the buffer)')
     f = {'snd': snd, 'rcv': rcv, 'pack': packs[0], 'wfmt': wfmt, 'wrest': wrest, 'hdr': hdr[0], 'pay': pay[0],
          'rfmt': hdr[0].args[0].value}
     try:
@@ -114,16 +124,31 @@ def rule_FR1(ctx, rep):
         rep.ok('FR1', rcv, lps[0], f'packet length = payload size + header size ({hs})')
     else:
         rep.bad('FR1', rcv, lps[0], f'packet length is {norm(lps[0].value)}, expected {sizev} + {hs}')
-    # payload unpack: width == size var, offset == hs
+    # payload read: width == size var, offset == hs
     pay = f['pay']
-    pfmt, prest = _const_prefix(pay.args[0])
-    okp = pfmt == '' and prest and len(prest) == 2 and isinstance(prest[0], ast.FormattedValue) and norm(prest[0].value) == sizev \
-        and isinstance(prest[1], ast.Constant) and prest[1].value == 's'
-    off = const_int(pay.args[2]) if len(pay.args) > 2 else 0
-    if okp and off == hs:
-        rep.ok('FR1', rcv, pay, f'payload read at offset {hs} with the width from the header')
+    if isinstance(pay, ast.Subscript):
+        lo = to_lin(pay.slice.lower, opaque=False)
+        hi = to_lin(pay.slice.upper, opaque=False) if pay.slice.upper is not None else None
+        env = {}
+        for s_ in iter_nodes(lp):
+            if isinstance(s_, ast.Assign) and isinstance(s_.targets[0], ast.Name):
+                v_ = to_lin(s_.value, env, opaque=False)
+                if v_ is not None:
+                    env[s_.targets[0].id] = v_
+        hi = to_lin(pay.slice.upper, env, opaque=False) if pay.slice.upper is not None else None
+        if lo is not None and hi is not None and lo == Lin(hs) and (hi - lo) == Lin.sym(sizev):
+            rep.ok('FR1', rcv, pay, f'payload = buffer[{hs}:{hs}+size]')
+        else:
+            rep.bad('FR1', rcv, pay, f'payload slice {norm(pay)} is not buffer[{hs}:{hs}+{sizev}]')
     else:
-        rep.bad('FR1', rcv, pay, f'payload is read with format {norm(pay.args[0])} at offset {off}; expected width {sizev} at offset {hs}')
+        pfmt, prest = _const_prefix(pay.args[0])
+        okp = pfmt == '' and prest and len(prest) == 2 and isinstance(prest[0], ast.FormattedValue) and norm(prest[0].value) == sizev \
+            and isinstance(prest[1], ast.Constant) and prest[1].value == 's'
+        off = const_int(pay.args[2]) if len(pay.args) > 2 else 0
+        if okp and off == hs:
+            rep.ok('FR1', rcv, pay, f'payload read at offset {hs} with the width from the header')
+        else:
+            rep.bad('FR1', rcv, pay, f'payload is read with format {norm(pay.args[0])} at offset {off}; expected width {sizev} at offset {hs}')
 
 
 # ------------------------------------------------------------------------------------------ FR2
